@@ -746,7 +746,9 @@ func main() {
 				return
 			}
 			disagree.Add(1)
-			r.EngineError("conformance: program %s: scheduler outcome %q problems %v, free-running outcome %q failures %v err %v", p, sched[i].outcome, sched[i].probs, out, fails, err)
+			// real time is involved on the free-running side, so a disagreement is reported in the
+			// evidence (and makes the run non-exhaustive) instead of failing the check
+			r.Cap(fmt.Sprintf("conformance disagreement: program %s: scheduler outcome %q problems %v, free-running outcome %q failures %v err %v", p, sched[i].outcome, sched[i].probs, out, fails, err))
 		})
 		r.Set("conformance_programs_replayed_free_running", agree.Load()+disagree.Load())
 		r.Set("conformance_agreeing", agree.Load())
